@@ -59,7 +59,7 @@ func c04Tags(r *core.Rand, k int) c04Tag {
 		return c04Tag{"{% set z" + fmt.Sprint(k%3) + " = 1 %}", ""}
 	default:
 		// comment shapes, including the empty and the unpadded ones
-		return c04Tag{[]string{"{# comment " + m + " #}", "{##}", "{# #}", "{#" + m + "#}", "{#\n#}", "{# {{ v0 }} #}", "{#}#}"}[r.Intn(7)], ""}
+		return c04Tag{[]string{"{# comment " + m + " #}", "{##}", "{# #}", "{#" + m + "#}", "{#\n#}", "{# {{ v0 }} #}", "{#}#}", "{#- " + m + " -#}", "{#-" + m + "-#}", "{#- -#}", "{# -" + m + "- #}"}[r.Intn(11)], ""}
 	}
 }
 
